@@ -316,7 +316,7 @@ class PayloadGen:
 
 
 BUILDERS = ["udp_unicast", "udp_broadcast", "udp_client", "udp_server", "tcp_client_msg", "tcp_server_msg",
-            "tcp_client_seg", "tcp_server_seg", "icmp_echo", "icmp_reply", "datagram", "frag_datagram", "frag_whole",
+            "tcp_client_seg", "tcp_server_seg", "icmp_echo", "icmp_reply", "datagram", "frag_datagram", "frag_whole", "frag_tail0",
             "eth_frame", "tls_record"]
 
 
@@ -375,10 +375,12 @@ def build_case(name, r, pend, builder, forced_args=None):
             kw["id"] = r.getrandbits(16)
         body.append(Do(Call("ipv4::datagram", IP(rand_ip(r)), IP(rand_ip(r)), _x=args, **kw)))
         loc, raw = "ip", False
-    elif builder in ("frag_datagram", "frag_whole"):
+    elif builder in ("frag_datagram", "frag_whole", "frag_tail0"):
         body.append(Let("g", Call("ipv4::frag", IP(rand_ip(r)), IP(rand_ip(r)), _x=args)))
         if builder == "frag_datagram":
             body.append(Do(Call("g.datagram", **rk)))
+        elif builder == "frag_tail0":
+            body.append(Do(Call("g.tail", 0, **rk)))      # the tail from offset 0 is the whole payload, whatever its length mod 8
         else:
             body.append(Do(Call("g.fragment", 0, 8191, **rk)))
         loc = "ip"
